@@ -40,8 +40,9 @@ func TestMain(m *testing.M) {
 		"TestMessageSweep: one case = one small-group instance (3 smallest sizes) reused for 48 generated messages (random 0-200 B, 32-B hashes, beacon chain = previous group signature, " +
 		"repeated bytes, counters, sparse), per message: all shares verify, two different threshold subsets in generated orders through both collectors agree byte-for-byte with " +
 		"Sign(sum of secrets, msg) and verify; non-trivial = ids not 1..n and a non-empty message; distinct by (instance, hash of the message batch)")
-	stats.Assume("member ids are non-zero and pairwise distinct modulo the group order r (ids are 256-bit hashes of public keys; a collision mod r or id = 0 mod r is " +
-		"cryptographically infeasible); ids >= r (about 44% of uniformly distributed 256-bit ids) are generated")
+	stats.Assume("member ids are non-zero integers < 2^256 and pairwise distinct modulo the group order r (two ids congruent mod r are the same evaluation point; for 256-bit hashes of " +
+		"public keys a collision mod r is cryptographically infeasible); ids >= r (about 44% of uniformly distributed 256-bit ids) are generated, and style zero_mod_r has one member " +
+		"whose id is a multiple of r (the node accepts it; its share is the group secret - sets of fewer than k members containing it are not asserted on, only counted)")
 	stats.Assume("a dealer's secret is what its DKG context reports as its seed secret key (constant term); the expected group signature is " +
 		"(sum of dealer secrets mod r) * H(msg), with the sum in math/big, r from the curve definition (internal/ref) and the scalar multiplication done both by " +
 		"the package's Sign and by the big.Int reference curve arithmetic; H(msg) is taken from the implementation as Sign(1, msg)")
@@ -112,9 +113,20 @@ func genOneID(t *rapid.T, style string, i int) *big.Int {
 	panic("style " + style)
 }
 
-var idStyles = []string{"hash", "hash", "small", "over_order", "near_order", "top", "seq", "mixed", "mixed", "one_to_n"}
+var idStyles = []string{"hash", "hash", "small", "over_order", "near_order", "top", "seq", "mixed", "mixed", "one_to_n", "zero_mod_r", "zero_mod_r"}
 
-// genIDs draws n member ids, non-zero and pairwise distinct modulo r, all < 2^256.
+// zeroModR: every non-zero multiple of the group order that fits an id (32 bytes). Such an id is
+// non-zero, so the node accepts it (ID.IsValid, newGroupInitContext); its share is f(0).
+var zeroModR = func() []*big.Int {
+	var l []*big.Int
+	for v := new(big.Int).Set(ref.BNOrder); v.Cmp(new(big.Int).Lsh(big.NewInt(1), 256)) < 0; v = new(big.Int).Add(v, ref.BNOrder) {
+		l = append(l, v)
+	}
+	return l
+}()
+
+// genIDs draws n member ids, non-zero as integers, pairwise distinct modulo r, all < 2^256. In
+// style zero_mod_r exactly one id is a multiple of r; in all other styles every id is non-zero mod r.
 func genIDs(t *rapid.T, n int) ([]*big.Int, string) {
 	style := rapid.SampledFrom(idStyles).Draw(t, "idstyle")
 	ids := make([]*big.Int, n)
@@ -130,7 +142,7 @@ func genIDs(t *rapid.T, n int) ([]*big.Int, string) {
 		for i := range ids {
 			ids[i] = new(big.Int).Add(b, big.NewInt(step*int64(i)+1))
 		}
-	case "mixed":
+	case "mixed", "zero_mod_r":
 		for i := range ids {
 			s := rapid.SampledFrom([]string{"hash", "small", "over_order", "near_order", "top"}).Draw(t, fmt.Sprintf("style%d", i))
 			ids[i] = genOneID(t, s, i)
@@ -142,7 +154,15 @@ func genIDs(t *rapid.T, n int) ([]*big.Int, string) {
 	}
 	// deterministic fix-up into the domain: non-zero and distinct mod r, < 2^256
 	seen := map[string]bool{}
+	zi := -1
+	if style == "zero_mod_r" {
+		zi = rapid.IntRange(0, n-1).Draw(t, "zero_member")
+		ids[zi] = new(big.Int).Set(rapid.SampledFrom(zeroModR).Draw(t, "zero_multiple"))
+	}
 	for i := range ids {
+		if i == zi {
+			continue
+		}
 		for {
 			if ids[i].Cmp(two256) >= 0 {
 				ids[i].Sub(ids[i], order)
@@ -205,6 +225,7 @@ type instance struct {
 	partial      bool   // a restarting dealer's pre-restart piece is held by a surviving receiver
 	dups         int    // duplicate pieces offered to receivers
 
+	zeroIdx   int               // index of the member whose id is 0 mod r, -1 if none
 	sumKey    groupsig.Seckey   // sum of the dealer secrets mod r (harness-side)
 	pubShares []groupsig.Pubkey // GeneratePubkey(member's share key)
 }
@@ -228,10 +249,17 @@ func buildInstance(t *rapid.T, n int) *instance {
 	// that they do not all draw the same id style / message kind sequence
 	_ = rapid.SliceOfN(rapid.Byte(), 3*n, 3*n).Draw(t, "decorrelate")
 	in.idVals, in.style = genIDs(t, n)
-	for _, v := range in.idVals {
+	in.zeroIdx = -1
+	for i, v := range in.idVals {
 		id := mkID(v)
+		if !id.IsValid() {
+			t.Fatalf("harness: generated id %s is not a valid node id", v.Text(16))
+		}
 		in.ids = append(in.ids, id)
 		in.hexes = append(in.hexes, id.GetHexString())
+		if new(big.Int).Mod(v, order).Sign() == 0 {
+			in.zeroIdx = i
+		}
 	}
 	var gh common.Hash
 	copy(gh[:], rapid.SliceOfN(rapid.Byte(), 32, 32).Draw(t, "grouphash"))
@@ -519,6 +547,19 @@ func (in *instance) checkAllSubsets(t *rapid.T, fullVerifyBelow bool) (nSub, nBe
 			}
 		case sz == in.k-1 && sz >= 1:
 			nBelow++
+			if in.zeroIdx >= 0 && mask&(1<<uint(in.zeroIdx)) != 0 {
+				// the member whose id is 0 mod r holds f(0), the group secret, as its share: any set
+				// containing it determines the signature. The statement only speaks about sets of at
+				// least threshold size, so nothing is asserted here; the observation is recorded.
+				arr := in.arrival(mask, 0, nBelow)
+				if bytes.Equal(groupsig.RecoverGroupSignature(in.mapOf(arr), sz).Serialize(), in.want) {
+					stats.Count("obs_below_threshold_set_with_id_0_mod_r_recovers_group_signature", 1)
+				} else {
+					stats.Count("obs_below_threshold_set_with_id_0_mod_r_does_not_recover", 1)
+				}
+				nRec++
+				continue
+			}
 			arr := in.arrival(mask, 0, nBelow)
 			sig := groupsig.RecoverGroupSignature(in.mapOf(arr), sz)
 			got := sig.Serialize()
